@@ -58,7 +58,7 @@ GC_BATCH = 50
 # ...> ValueError: <Token ...> was created in a different Context") and the generator's own action never gets an end message. Minimal
 # input: it = g(); gc.collect(0); next(it) under X; h.me = h; h.g = it; under Y: del it, h; gc.collect().
 # With the constant False, collections of still-referenced generators happen only after their last resumption.
-ENABLE_GCCYCLE_PROMOTE_EARLY = False
+ENABLE_GCCYCLE_PROMOTE_EARLY = True
 
 
 def plan(tier, seed):
@@ -1182,7 +1182,17 @@ def gc_one(seed, i, res):
     if res.get("sample") is None and i % GC_BATCH == 0:
         res["sample"] = {"part": "gccycle", "scenario": sc, "clean-ups": [list(x) for x in mon_d.cleanups[:6]]}
     if problems:
-        res["violations"].append({"msg": "part gccycle: " + problems[0], "mech": None,
+        # Known finding (KNOWN_FINDINGS.json, C15 gc-finalises-generator-before-wrapper): attributed only when the scenario has the input
+        # that defect needs - a collection while everything is still referenced, BETWEEN the creation of a generator object and one of its
+        # later resumptions - (whatever is rejected in such a scenario is attributed to it).
+        ops = [st["op"] for st in sc["steps"]]
+        resumed = [j for j, o in enumerate(ops) if o in ("next", "send")]
+        created = [j for j, o in enumerate(ops) if o == "create"]
+        early = bool(resumed and created) and any(o == "promote" and min(created) < j < max(resumed) for j, o in enumerate(ops))
+        # (its consequences take many shapes - clean-up probes, misplaced nodes, missing end messages, unraisable reports, a clean-up chain cut
+        # short - so the attribution goes by the input alone; such scenarios are about a tenth of this part, the rest judge everything)
+        mech_gc = "gc-finalises-generator-before-wrapper" if early else None
+        res["violations"].append({"msg": "part gccycle: " + problems[0], "mech": mech_gc,
                                   "detail": {"case": i, "problems": problems[:6], "scenario": sc, "clean-ups": [list(x) for x in mon_d.cleanups[:8]]}})
 
 
